@@ -313,6 +313,128 @@ class Package:
             self.__dict__["_records"] = out
         return self.__dict__["_records"]
 
+    # ---- class-level constants and the folded form of a method ---------------------------------------------------------
+    @staticmethod
+    def _literal_table(node):
+        """the literal a class-level binding denotes when it is a (nested) tuple / list / set / dict of constants -- `tuple([..])`,
+        `frozenset({..})` .. of such a literal included -- else None.  Tuples, sets and frozensets come back as tuples."""
+        import copy
+        if isinstance(node, ast.Call) and isinstance(node.func, ast.Name) and node.func.id in ("tuple", "list", "frozenset", "set") and len(node.args) == 1 and not node.keywords:
+            inner = Package._literal_table(node.args[0])
+            if isinstance(inner, (ast.Tuple, ast.List)):
+                return ast.List(elts=inner.elts, ctx=ast.Load()) if node.func.id == "list" else ast.Tuple(elts=inner.elts, ctx=ast.Load())
+            return None
+        if isinstance(node, ast.Constant):
+            return copy.deepcopy(node)
+        if isinstance(node, ast.Call) and isinstance(node.func, ast.Name) and node.func.id == "slice" and 1 <= len(node.args) <= 3 and not node.keywords \
+                and all(isinstance(a, ast.Constant) and (a.value is None or type(a.value) is int) for a in node.args):
+            return copy.deepcopy(node)          # an immutable value built from constants
+        if isinstance(node, ast.UnaryOp) and isinstance(node.op, ast.USub) and isinstance(node.operand, ast.Constant):
+            return copy.deepcopy(node)
+        if isinstance(node, (ast.Tuple, ast.List, ast.Set)):
+            elts = [Package._literal_table(e) for e in node.elts]
+            if any(e is None for e in elts):
+                return None
+            return ast.List(elts=elts, ctx=ast.Load()) if isinstance(node, ast.List) else ast.Tuple(elts=elts, ctx=ast.Load())
+        if isinstance(node, ast.Dict):
+            if any(k is None for k in node.keys):
+                return None
+            ks, vs = [Package._literal_table(k) for k in node.keys], [Package._literal_table(v) for v in node.values]
+            if any(x is None for x in ks + vs) or any(not isinstance(k, ast.Constant) for k in ks):
+                return None
+            return ast.Dict(keys=ks, values=vs)
+        return None
+
+    def touched_attributes(self) -> set:
+        """names of attributes that are assigned, deleted or mutated in place (x.NAME = .., x.NAME[k] = .., x.NAME.append(..),
+        setattr(x, "NAME", ..)) anywhere in the package; "*" when a setattr with a name that cannot be read off the source exists.
+        The name of a setattr is read after static folding of the enclosing function (a loop over a literal table of names is
+        unrolled first); `setattr(x, TABLE[key], v)` with TABLE a class-level dict of constants touches TABLE's values."""
+        if "_touched" in self.__dict__:
+            return self._touched
+        import copy
+        from .normalize import MUTATORS, fold_static
+        touched = set()
+
+        def scan(root):
+            for n in ast.walk(root):
+                if isinstance(n, ast.Attribute) and isinstance(n.ctx, (ast.Store, ast.Del)):
+                    touched.add(n.attr)
+                elif isinstance(n, ast.Subscript) and isinstance(n.ctx, (ast.Store, ast.Del)) and isinstance(n.value, ast.Attribute):
+                    touched.add(n.value.attr)
+                elif isinstance(n, ast.AugAssign) and isinstance(n.target, ast.Attribute):
+                    touched.add(n.target.attr)
+                elif isinstance(n, ast.Call) and isinstance(n.func, ast.Attribute) and isinstance(n.func.value, ast.Attribute) and n.func.attr in MUTATORS:
+                    touched.add(n.func.value.attr)
+                elif isinstance(n, ast.Call) and isinstance(n.func, ast.Name) and n.func.id == "setattr":
+                    name = n.args[1] if len(n.args) >= 2 else None
+                    if isinstance(name, ast.Constant) and isinstance(name.value, str):
+                        touched.add(name.value)
+                        continue
+                    vals = None
+                    if isinstance(name, ast.Subscript) and isinstance(name.value, ast.Attribute):
+                        for ci in self.classes.values():
+                            lit = self._literal_table(ci.attrs[name.value.attr]) if name.value.attr in ci.attrs else None
+                            if isinstance(lit, ast.Dict) and all(isinstance(v, ast.Constant) and isinstance(v.value, str) for v in lit.values):
+                                vals = (vals or set()) | {v.value for v in lit.values}
+                    if vals is None:
+                        touched.add("*")
+                    else:
+                        touched.update(vals)
+        for mod in self.modules.values():
+            for st in ast.walk(mod):
+                if isinstance(st, (ast.FunctionDef, ast.AsyncFunctionDef)) and any(isinstance(c, ast.Call) and isinstance(c.func, ast.Name) and c.func.id == "setattr" for c in ast.walk(st)):
+                    try:
+                        scan(fold_static(copy.deepcopy(st)))
+                    except Exception:
+                        scan(st)            # (a setattr with a computed name then counts as "*")
+            scan(ast.Module(body=[s for s in mod.body], type_ignores=[]) if not any(
+                isinstance(c, ast.Call) and isinstance(c.func, ast.Name) and c.func.id == "setattr" for c in ast.walk(mod)) else _without_setattr(mod))
+        self._touched = touched
+        return touched
+
+    def class_constant(self, cls: str, name: str):
+        """literal of the class-level constant `name` of class `cls` (or a base): bound in the class body to a (nested) literal of
+        constants and never assigned, deleted or mutated anywhere in the package (instances included); None otherwise"""
+        t = self.touched_attributes()
+        if name in t or "*" in t:
+            return None
+        _, node = self.resolve_attr(cls, name)
+        return self._literal_table(node) if node is not None else None
+
+    def with_class_constants(self, cls: str, fn):
+        """`fn` (modified in place) with every read of a class-level constant through self / cls / a class name of the MRO replaced by its literal"""
+        mro = self.mro(cls)
+        pkg = self
+
+        class P(ast.NodeTransformer):
+            def visit_Attribute(self, n):
+                self.generic_visit(n)
+                if isinstance(n.ctx, ast.Load) and isinstance(n.value, ast.Name) and (n.value.id in ("self", "cls") or n.value.id in mro):
+                    c = pkg.class_constant(cls, n.attr)
+                    if c is not None:
+                        return ast.copy_location(c, n)
+                return n
+        new = P().visit(fn)
+        ast.fix_missing_locations(new)
+        return new
+
+    def folded(self, cls: str, meth: str, keep=(), expand: bool = True) -> ast.FunctionDef:
+        """A copy of method `cls.meth` in the form value-based rules read: extracted helpers put back (`expanded`, unless
+        expand=False), class-level constants written in place, and the literal part evaluated (normalize.fold_static: static loops
+        over zip / enumerate / accumulate / comprehensions of literal tables unrolled, table look-ups and setattr/getattr with
+        constant names resolved, `if key in TABLE` dispatch spelled as the chain over the keys)."""
+        import copy
+        from .normalize import fold_static
+        cache = self.__dict__.setdefault("_folded", {})
+        key = (cls, meth, tuple(sorted(keep)), expand)
+        if key not in cache:
+            owner = self.resolve(cls, meth)[0] or cls          # an inherited method is read where it is defined
+            fn = copy.deepcopy(self.expanded(owner, meth, keep) if expand else self.method(owner, meth))
+            from .normalize import namedtuple_tables
+            cache[key] = fold_static(self.with_class_constants(cls, fn), namedtuple_tables(self.modules[self.cls(owner).file]))
+        return cache[key]
+
     def subclasses(self, base: str) -> list:
         return [c for c in self.classes if base in self.mro(c)[1:]]
 
@@ -320,6 +442,18 @@ class Package:
         if (file, name) not in self.functions:
             raise AnalysisError(f"function {name} vanished from {file}", (file, 0), MISSING)
         return self.functions[(file, name)]
+
+
+def _without_setattr(mod):
+    """the module minus the functions that call setattr (those are scanned in their folded form)"""
+    class D(ast.NodeTransformer):
+        def visit_FunctionDef(self, n):
+            if any(isinstance(c, ast.Call) and isinstance(c.func, ast.Name) and c.func.id == "setattr" for c in ast.walk(n)):
+                return None
+            return self.generic_visit(n)
+        visit_AsyncFunctionDef = visit_FunctionDef
+    import copy
+    return D().visit(copy.deepcopy(mod))
 
 
 def species_count_method(pkg):
